@@ -4,3 +4,30 @@ reg("C37", "post-operation invariant monitor on the real DiGraph vs a mirror adj
 reg("C38", "differential monitor: real parse_mount_table/get_mount/on_cifs/on_same_mount vs component-prefix reference over generated mount outputs",
     "Generated mount outputs (Linux/macOS formats, nested mounts, string-prefix siblings) are parsed by the real parser and every lookup is compared with the longest component-prefix mount of that table; held on the (table, path) pairs executed.",
     "oracle is relative to the table pydra's parser keeps; real `mount` is not invoked")
+reg("C01", "reference-model oracle over observed State expansions and over the event log + outputs of real split runs",
+    "Every splitter tree over <=2 (quick) / <=3 (thorough) fields x all list lengths 0-3 is checked at State level (exhaustive for that bound), sampled 4-field trees and end-to-end runs (debug and process-pool workers) are checked against the outer/inner reference including output order and early rejection of unequal inner lengths; held on the cases executed.",
+    "unique tokens per list; reference model vp/ref_split.py written from the statement; MAY class: inner pairing of equal-size operands of different shape")
+reg("C02", "reference-model oracle + conservation check (returned leaves == body end events) over real split+combine runs",
+    "State-level partition (final_combined_ind_mapping) enumerated for all trees over <=2/3 fields x shapes x combiner subsets; end-to-end runs as a task and as a workflow node feeding a downstream term node compare the ordered groups; held on the cases executed.",
+    "unique tokens; reference vp/ref_split.combine written from the statement")
+reg("C03", "event-log monitor of every node body + nested-loop (natural join) reference evaluator, verdict per node",
+    "Random workflow graphs of 2-5 term nodes are run on the real engine; each node's multiset of job input terms and the workflow output (order included) must equal the reference; a known defect family is attributed per node by a structural predicate so other mismatches still fail.",
+    "generator grammar: literal/own splitters, own-axis combiners, chains/fan-in/diamonds; reference vp/ref_wf.py from the statement")
+reg("C04", "depth-first element reference over real nested-container splits (outputs + body starts)",
+    "All nested structures of depth <=2 with inner lengths 0..2/3 and sampled depth-3 values, container_ndim 1..depth, alone and inside outer/inner splitters, run end to end; jobs/outputs must be the depth-n elements in DFS order.",
+    "values of uniform depth; MAY: inner pairing of a regular multi-dimensional value with a flat list")
+reg("C05", "differential monitor: two spellings of one splitter run on the real engine must give identical event logs and outputs; malformed requests must raise with zero body starts",
+    "Pairs (tree, re-spelled tree) as plain task and as workflow node with an upstream state, plus 7 kinds of ill-formed requests; model-free equality / zero-start oracle; held on the pairs executed.",
+    "re-spellings limited to one-element wrapping and same-operator re-bracketing, as in the statement")
+reg("C14", "controlled completion orders through a gated process-pool worker; MUST-run / MUST-NOT sets checked on the event log; error text checked",
+    "Gated workflows with failing jobs are run through the real async loop with chosen release orders, including orders where other jobs finish while the failing job is still executing; independent jobs must complete, consumers of failed jobs must not start, the error must name every failed job.",
+    "schedule coverage = the release orders executed (reported), not all OS interleavings; per-node blocking downstream of a partially failed node is in the MAY class")
+reg("C15", "happens-before check on the totally ordered multi-process event log (start(J) after end(U) for every consumed U; start counts)",
+    "C03 graphs under the sequential loop, the async loop and the async loop with controller-chosen completion orders; consumed jobs are identified by sub-terms; held on the logs observed.",
+    "duplicate-identity nodes may share one execution (1..multiplicity starts)")
+reg("C16", "gated process-pool worker exposes every launched body simultaneously; running maximum over log prefixes <= k",
+    "Workflows of 3-10 independent/chained/split gated jobs under limits k=1..n and random/fifo/lifo release orders with n_procs >= jobs; the number of bodies between start and end in the ordered log never exceeds k on the runs executed.",
+    "nested workflows not in the workload; pool size >= job count")
+reg("C17", "differential monitor across workers, process counts, limits and chosen completion orders (deep equality of outputs)",
+    "Each generated workflow is run under debug, cf with 1/2/8 processes, concurrency limits and gated release orders in fresh caches; all outputs must be equal (and equal to the reference where it applies).",
+    "configurations listed in evidence; schedule coverage = executed release orders")
